@@ -93,7 +93,7 @@ func mutate(t *rapid.T, src string) (string, int) {
 	return strings.Join(toks, ""), n
 }
 
-const ruleC27 = "valid generated programs with 0-4 token-level mutations (delete/duplicate/swap/replace/insert hostile tokens), variable maps with missing/extra/ill-typed values, arbitrary (negative, huge, absent) balances and metadata, plus raw byte strings through Compile; run through DefaultNumscriptParser.Parse + MachineNumscriptRuntimeAdapter.Execute; non-trivial = the (possibly mutated) input still compiles; distinct = by final script text + vars"
+const ruleC27 = "an exhaustive matrix of the 6 variable types x 37 hostile values on scripts that use the variable; then valid generated programs with 0-4 token-level mutations (delete/duplicate/swap/replace/insert hostile tokens), variable maps with missing/extra/ill-typed values, arbitrary (negative, huge, absent) balances and metadata, plus raw byte strings through Compile; run through DefaultNumscriptParser.Parse + MachineNumscriptRuntimeAdapter.Execute; non-trivial = the (possibly mutated) input still compiles; distinct = by final script text + vars"
 
 func checkC27(rt *rapid.T, st *stats.Collector, script string, vars map[string]string, p *Program, classes []string) {
 	store := &progStore{p: p}
@@ -123,6 +123,30 @@ func TestC27(t *testing.T) {
 	st := stats.New("C27", "exploration", ruleC27,
 		"a single case that does not return within 90 s of wall time counts as a hang; normal cases take well under a millisecond")
 	defer st.Write(t)
+	// exhaustive small matrix first: every variable type x every hostile value, on a script that uses the variable
+	typed := map[string]string{
+		"account":  "vars {\n account $x\n}\nsend [USD/2 1] (\n source = @world\n destination = $x\n)",
+		"asset":    "vars {\n asset $x\n}\nsend [$x 1] (\n source = @world\n destination = @a\n)",
+		"number":   "vars {\n number $x\n}\nsend [USD/2 1] (\n source = @world\n destination = @a\n)\nset_tx_meta(\"n\", $x)",
+		"string":   "vars {\n string $x\n}\nsend [USD/2 1] (\n source = @world\n destination = @a\n)\nset_tx_meta(\"s\", $x)",
+		"monetary": "vars {\n monetary $x\n}\nsend $x (\n source = @world\n destination = @a\n)",
+		"portion":  "vars {\n portion $x\n}\nsend [USD/2 10] (\n source = @world\n destination = {\n  $x to @a\n  remaining to @b\n }\n)",
+	}
+	matrix := 0
+	for typ, script := range typed {
+		for _, val := range append(append([]string{}, hostileVarValues...), "true", "false", "0", "00", "1/1", "-0", "+1", " ", "\t", "USD/2 null", "null null", "@a", "$x") {
+			p := &Program{Balances: map[string]map[string]*big.Int{}, Meta: map[string]map[string]string{}, Features: map[string]bool{}}
+			o, partial := runAny(script, map[string]string{"x": val}, &progStore{p: p})
+			if o.Panic != nil {
+				t.Fatalf("C27: a %s variable given the value %q makes the runtime panic: %v\nscript:\n%s", typ, val, o.Panic, script)
+			}
+			if partial {
+				t.Fatalf("C27: a %s variable given the value %q: a result is returned together with an error (%v)", typ, val, o.Err)
+			}
+			matrix++
+		}
+	}
+	st.Set("typed_variable_matrix", matrix)
 	n := stats.N(10000, 60000)
 	st.Set("requested_checks", n)
 	stats.Check(t, n, 27, func(rt *rapid.T) {
